@@ -55,6 +55,7 @@ def generate(rng, n, tier):
         out.append({'pts': pts, 'z': zs, 't': ts, 'ms': ms, 'preds': rng.random() < 0.2, 'parent': rng.choice([None, None, None, [2, 1], [1, 0], [0, 2]]), 'how': rng.choice(['extract', 'slice']),
                     't0': rng.choice([0, 0, 0, 4107542400 - 110, 951782400 - 105, 4107542400 + 86400 * 100])})      # ordinary instants, or around the end of February 2100 / 2000
     for c in out:
+        c['noised'] = rng.random() < 0.15
         if rng.random() < 0.25:
             k = len(c['t'])
             ties = [i for i in range(1, k) if (c['t'][i], c['ms'][i]) == (c['t'][i - 1], c['ms'][i - 1])] + [i for i in range(2, k) if (c['t'][i], c['ms'][i]) == (c['t'][i - 2], c['ms'][i - 2])]
@@ -110,6 +111,22 @@ def run_impl(case):
         P = mktrack(full)
         tr = P.extract(a, a + len(case['pts']) - 1) if case.get('how', 'extract') == 'extract' else P[a:a + len(case['pts'])]
         ci.computeAbsCurv(P); P.estimate_speed()
+    if case.get('noised') and not case.get('parent'):
+        # the track is a noised copy (Track.noise) of a reference track whose abscissa had been computed, then put on the positions of the case:
+        # what is computed on it afterwards is about its own positions
+        from tracklib.core import ENUCoords
+        ref = mktrack(dict(case, pts=[[1.5 * x + 3.0, y - 2.0] for x, y in case['pts']]))
+        ci.computeAbsCurv(ref)
+        try:
+            import numpy
+            numpy.random.seed(7)
+            nz = ref.noise(0.5)
+        except Exception:
+            nz = None                                # (a reference the noise model does not accept: the plain track is used)
+        if nz is not None and nz.size() == tr.size():
+            for i, (x, y) in enumerate(case['pts']):
+                nz.getObs(i).position = ENUCoords(x, y, case['z'][i])
+            tr = nz
     n = tr.size()
     pos0 = [(o.position.getX(), o.position.getY(), o.position.getZ(), str(o.timestamp), o.timestamp.ms) for o in tr]
     if case.get('preds'):                         # the leg lengths are already on the track under the name the computation uses, derived with the
